@@ -99,14 +99,19 @@ var (
 )
 
 func c19Contexts(kind c19Kind, thorough bool) []c19Ctx {
-	bare, based, trl := 4, 3, 4
+	// quick: bare sequences up to 4 atoms, sequences around a well-formed base up to 3.
+	// thorough: one atom more everywhere an accepted section can gain from it (a response
+	// needs its :status, so "status+seq" / "seq+status" with 4 atoms are the 5-field
+	// sections that matter; bare response and trailer sequences stay at 4).
+	bare, based := 4, 3
+	reqBare := bare
 	if thorough {
-		bare, based, trl = 5, 4, 4
+		based, reqBare = 4, 5
 	}
 	switch kind {
 	case c19Req:
 		return []c19Ctx{
-			{Name: "request/bare", Kind: kind, MaxLen: bare},
+			{Name: "request/bare", Kind: kind, MaxLen: reqBare},
 			{Name: "request/GET-base+seq", Kind: kind, Pre: c19BaseGet, MaxLen: based},
 			{Name: "request/seq+GET-base", Kind: kind, Post: c19BaseGet, MaxLen: based},
 			{Name: "request/CONNECT-base+seq", Kind: kind, Pre: c19BaseConnect, MaxLen: based},
@@ -120,7 +125,7 @@ func c19Contexts(kind c19Kind, thorough bool) []c19Ctx {
 		}
 	default:
 		return []c19Ctx{
-			{Name: "trailer/bare", Kind: kind, MaxLen: trl},
+			{Name: "trailer/bare", Kind: kind, MaxLen: bare},
 			{Name: "trailer/x-t+seq", Kind: kind, Pre: []c19Field{{"x-t", "0"}}, MaxLen: based},
 		}
 	}
@@ -361,9 +366,21 @@ func c19CheckOne(parse c19Parser, kind c19Kind, fs []c19Field, decodeErr bool, f
 			return c19Out{}, explore.Failf(pred+"/"+kind.String(),
 				"%s section ACCEPTED (size limit %d, decoded size %d) although it violates: %s; net/http is handed %s", kind, limit, size, strings.Join(all, ", "), got)
 		}
-		if want := c19Want(kind, c19ViewOf(fs)); got != want {
+		view := c19ViewOf(fs)
+		if want := c19Want(kind, view); got != want {
 			return c19Out{}, explore.Failf("result-differs-from-fields/"+kind.String()+"/"+c19DiffTag(got, want),
 				"%s section accepted but net/http is handed\n   got  %s\n   want %s", kind, got, want)
+		}
+		if kind != c19Trl {
+			// the pseudo-header struct parseHeaders itself reports for the same fields
+			hdr, err := parseHeaders(c19DecodeFn(fs, false), kind == c19Req, limit, nil)
+			if err != nil {
+				return c19Out{}, explore.Failf("parseHeaders-disagrees/"+kind.String(), "%s section accepted, but parseHeaders alone rejects it: %v", kind, err)
+			}
+			if g, w := c19RenderParsed(hdr), c19ModelParsed(view); g != w {
+				return c19Out{}, explore.Failf("parseHeaders-differs-from-fields/"+kind.String()+"/"+c19DiffTag(g, w),
+					"parseHeaders reports\n   got  %s\n   want %s", g, w)
+			}
 		}
 		return c19Out{}, nil
 	}
